@@ -29,7 +29,7 @@ PROPERTY = "C26"
 LEVEL = "exploration"
 THOROUGH_WORKERS = 16
 RULE = (
-    "programs of 1-3 tasks x 1-4 ops (feed 1-6 distinct bytes / read(n,timeout in None,0,0.5,2) / empty / close / "
+    "programs of 1-3 tasks (role mixed / pure consumer / pure producer) x 1-4 ops (feed 1-6 distinct bytes / read(n,timeout in None,0,0.5,2) / empty / close / "
     "read_ready / len / sleep) run on the real BufferedPipe under the deterministic scheduler with a generated "
     "preemption list (<=4 preemptions + forced picks, lock-level and optionally line-level switch points) and, in "
     "thorough, depth-first enumeration of all schedules with <=3 preemptions for every 2-task program with <=3 / <=2 ops "
@@ -50,9 +50,29 @@ op_st = st.one_of(
     st.tuples(st.just("sleep"), st.sampled_from([0.25, 1.0, 3.0])),
 )
 
+# task roles: mixed (any op), pure consumer (read / empty only), pure producer (feed / close / passage of time).  Several
+# consumers sharing what one producer feeds is the situation in which a woken reader finds the data already taken.
+consumer_op = st.one_of(
+    st.tuples(st.just("read"), st.integers(1, 8), st.sampled_from([None, None, 0.5, 2.0, 0.0])),
+    st.tuples(st.just("read"), st.integers(1, 8), st.sampled_from([None, None, 0.5, 2.0, 0.0])),
+    st.tuples(st.just("empty")),
+)
+producer_op = st.one_of(
+    st.tuples(st.just("feed"), st.integers(1, 6)),
+    st.tuples(st.just("feed"), st.integers(1, 6)),
+    st.tuples(st.just("close")),
+    st.tuples(st.just("sleep"), st.sampled_from([0.25, 1.0, 3.0])),
+)
+task_st = st.one_of(
+    st.lists(op_st, min_size=1, max_size=4),
+    st.lists(op_st, min_size=1, max_size=4),
+    st.lists(consumer_op, min_size=1, max_size=3),
+    st.lists(producer_op, min_size=1, max_size=3),
+)
+
 case_st = st.fixed_dictionaries(
     {
-        "tasks": st.lists(st.lists(op_st, min_size=1, max_size=4), min_size=1, max_size=3),
+        "tasks": st.lists(task_st, min_size=1, max_size=3),
         "sched": S.schedule_strategy(max_pre=4, max_gap=40, max_forced=12),
         "trace": st.booleans(),
     }
@@ -225,7 +245,11 @@ def judge(res, records, pipe):
         elif kind == "len":
             if out[1] != len(buf):
                 viol.append(("observer", "len", "%s returned %r, model has %d bytes" % (where, out[1], len(buf))))
-    remaining = pipe._buffer.tobytes()
+    try:
+        remaining = bytes(pipe._buffer)
+    except Exception as e:  # the buffer is no longer a byte container: nothing the model can be compared with
+        viol.append(("fifo", "final-buffer-unreadable", "bytes(pipe._buffer) raised %r" % (e,)))
+        remaining = buf
     if remaining != buf and not any(v[0] == "fifo" for v in viol):
         viol.append(("fifo", "final-buffer", "remaining buffer %s, model %s" % (remaining.hex(), buf.hex())))
     if bool(pipe._closed) != closed:
@@ -257,6 +281,14 @@ def judge(res, records, pipe):
         classes.add("waiter-woken-by-notify")
     if by_timeout:
         classes.add("waiter-woken-by-timeout")
+    if _notified_for_nothing(log):
+        # the two-consumer situation: a reader was notified (feed/close) but somebody else (another reader, empty())
+        # had taken the data before it got the lock back, so it had to wait again / time out / see EOF
+        classes.add("notified-reader-found-buffer-empty")
+    readers = sum(1 for recs in records if any(r["op"][0] in ("read", "empty") for r in recs))
+    feeders = sum(1 for recs in records if any(r["op"][0] == "feed" for r in recs))
+    if readers >= 2 and feeders >= 1:
+        classes.add("consumers>=2+feeder")
     touching = sum(1 for recs in records if any(r["op"][0] != "sleep" for r in recs))
     nontrivial = touching >= 2 and bool(woken)
     # a reader that was notified, and the clock moved before it re-acquired the lock
@@ -278,6 +310,20 @@ def _wake_kind(log, rec):
         if ev[0] == "woken" and ev[1] == name:
             return "notify" if ev[3] else "timer"
     return "none"
+
+
+def _notified_for_nothing(log):
+    """A task was woken by a notify and, having re-acquired the pipe lock, waited again on the condition (the
+    data it was woken for was gone) - judged on the lock/condition events only."""
+    state = {}
+    for ev in log:
+        if ev[0] == "woken":
+            state[ev[1]] = "notified" if ev[3] else None
+        elif ev[0] == "wait" and state.get(ev[1]) == "notified":
+            return True
+        elif ev[0] == "rel" and ev[2] == LOCK:
+            state[ev[1]] = None
+    return False
 
 
 def _clock_moved_after_notify(log):
